@@ -9,6 +9,7 @@ import (
 
 	corev1 "k8s.io/api/core/v1"
 	networkingv1 "k8s.io/api/networking/v1"
+	"k8s.io/client-go/tools/cache"
 	"tkestack.io/galaxy/pkg/api/k8s/eventhandler"
 	"tkestack.io/galaxy/pkg/policy"
 	"tkestack.io/galaxy/verifsim/core"
@@ -55,8 +56,9 @@ func decPolicy(b []byte) *networkingv1.NetworkPolicy {
 	return p
 }
 
-// eventTask runs the real handler for one informer event.
-func eventTask(inst *Instance, kind, typ string, oldJSON, newJSON []byte) {
+// eventTask runs the real handler for one informer event. tombstone: the delete was only noticed by a relist,
+// the handler gets the last known object wrapped in cache.DeletedFinalStateUnknown, as client-go does.
+func eventTask(inst *Instance, kind, typ string, oldJSON, newJSON []byte, tombstone bool) {
 	switch kind {
 	case "pods":
 		switch typ {
@@ -65,7 +67,11 @@ func eventTask(inst *Instance, kind, typ string, oldJSON, newJSON []byte) {
 		case "MODIFIED":
 			inst.podH.OnUpdate(decPod(oldJSON), decPod(newJSON))
 		case "DELETED":
-			inst.podH.OnDelete(decPod(oldJSON))
+			if tombstone {
+				inst.podH.OnDelete(cache.DeletedFinalStateUnknown{Key: "tombstone", Obj: decPod(oldJSON)})
+			} else {
+				inst.podH.OnDelete(decPod(oldJSON))
+			}
 		}
 	case "networkpolicies":
 		switch typ {
@@ -74,7 +80,11 @@ func eventTask(inst *Instance, kind, typ string, oldJSON, newJSON []byte) {
 		case "MODIFIED":
 			inst.polH.OnUpdate(decPolicy(oldJSON), decPolicy(newJSON))
 		case "DELETED":
-			inst.polH.OnDelete(decPolicy(oldJSON))
+			if tombstone {
+				inst.polH.OnDelete(cache.DeletedFinalStateUnknown{Key: "tombstone", Obj: decPolicy(oldJSON)})
+			} else {
+				inst.polH.OnDelete(decPolicy(oldJSON))
+			}
 		}
 	}
 	core.CallNow(core.Req{Op: "w.done", A: []string{"event"}})
@@ -97,4 +107,21 @@ func cniTask(inst *Instance, podJSON []byte) {
 		msg = err.Error()
 	}
 	core.CallNow(core.Req{Op: "w.done", A: []string{"cni", msg}})
+}
+
+// directTask calls the entry points that galaxy's CNI path and pod handlers reach with a pod object of the
+// caller's choosing (C18): mode 0 = what CNI ADD does, 1 = removal of the pod's address from the sets,
+// 2 = the pod delete handler for an object the informer cache may never have held.
+func directTask(inst *Instance, podJSON []byte, mode int) {
+	pod := decPod(podJSON)
+	switch mode {
+	case 0:
+		_ = inst.pm.SyncPodChains(pod)
+		inst.pm.SyncPodIPInIPSet(pod, true)
+	case 1:
+		inst.pm.SyncPodIPInIPSet(pod, false)
+	default:
+		inst.podH.OnDelete(pod)
+	}
+	core.CallNow(core.Req{Op: "w.done", A: []string{"direct"}})
 }
